@@ -1,6 +1,7 @@
 import GqlProofs.Validate.WalkBound
 import GqlProofs.Validate.NoPanic
 import GqlProofs.Validate.RuleFuel
+import GqlProofs.Validate.OpEvents
 import GqlProofs.Validate.Witness
 /-
   C02 — validation never crashes and terminates (the part that concerns `validator.Validate`
@@ -58,8 +59,7 @@ theorem C02_walk_events_bound (s : Schema) (d : QueryDoc) (evs : List Event) (h 
     and NoFragmentCycles never run out of fuel.
     Missing for the full statement: ValuesOfCorrectType is false (counterexamples below);
     KnownRootType panics exactly on an operation kind other than query/mutation/subscription,
-    which the parser never produces (not proved here: needs "operation events carry operations
-    of the document" plus a hypothesis on the document). -/
+    which the parser never produces (see `C02_validate_no_panic_parsed_partial`). -/
 theorem C02_validate_no_panic_partial (rs : List Rule) (s : Schema) (d : QueryDoc)
     (h : ∀ r ∈ rs, r ∈ panicFreeRules') : ∃ errs, validate rs s d = .ok errs :=
   validateV_neverPanics rs s.view d fun r hr => panicFreeRules'_neverPanic r (h r hr)
@@ -76,6 +76,27 @@ theorem C02_panic_free_rule_names :
         "KnownArgumentNamesWithoutSuggestions", "KnownTypeNamesWithoutSuggestions",
         "MaxIntrospectionDepth", "SingleFieldSubscriptions", "NoFragmentCycles" ].map str := by
   decide
+
+/-- … and with KnownRootType as well, for documents whose operations have a kind the parser can
+    produce (`query`, `mutation`, `subscription`; the explicit `panic` of known_root_type.go is
+    unreachable from parsed documents).  So of the 30 modelled rules only ValuesOfCorrectType and
+    its twin can make `Validate` panic. -/
+theorem C02_validate_no_panic_parsed_partial (rs : List Rule) (s : Schema) (d : QueryDoc)
+    (hd : ∀ op ∈ d.ops, op.op ∈ parserOpKinds)
+    (h : ∀ r ∈ rs, r ∈ panicFreeRules' ∨ r = knownRootType) : ∃ errs, validate rs s d = .ok errs := by
+  obtain ⟨evs, hw⟩ := walkDoc_isSome s.view d
+  have hev : ∀ e ∈ evs, OpKindOK e := by
+    intro e he op u hp
+    exact hd op (walkDoc_opsIn s.view d evs hw e he op u hp)
+  have hr : ∀ q ∈ rs.map Rule.start, q.rule.NeverPanicsOn OpKindOK := by
+    intro q hq
+    obtain ⟨r, hr, rfl⟩ := List.mem_map.1 hq
+    rcases h r hr with h1 | h1
+    · exact (panicFreeRules'_neverPanic r h1).on _
+    · subst h1
+      exact knownRootType_neverPanicsOn
+  obtain ⟨errs, he⟩ := runAll_neverPanicsOn (s := s.view) (d := d) hev hr
+  exact ⟨errs, by simp only [validate, validateV, hw, he]⟩
 
 /-- R2a, kernel-checked: `{ f(one: {a: $undef}) }` with `input One @oneOf { a: String }` makes
     ValuesOfCorrectType dereference the nil `VariableDefinition` of the undefined variable. -/
@@ -103,6 +124,7 @@ example : validate [valuesOfCorrectType] Witness.schema Witness.docUsed = .ok []
 #print axioms C02_walk_events_bound
 #print axioms C02_validate_no_panic_partial
 #print axioms C02_panic_free_rule_names
+#print axioms C02_validate_no_panic_parsed_partial
 #print axioms C02_validate_no_panic_counterexample_R2a
 #print axioms C02_validate_no_panic_counterexample_R2b
 #print axioms C02_validate_default_panics_R2a
